@@ -692,6 +692,13 @@ func expectCorpus() []*expectCase {
 			`{"x":1}`, `{"a":1}`)),
 		eLit("corpus-guard-throws", true, eStepLit([]eOutput{eOut(`{"a":"?x"}`, eGuard{Kind: "throw"}, false)}, `{"a":1}`)),
 		eLit("corpus-match-error", true, eStepLit([]eOutput{eOut(`{"?x":1,"?y":2}`, none, false)}, `{"a":1}`)),
+		// lines longer than a reader's buffer (4 KiB, 64 KiB) are lines like any other
+		eLit("corpus-long-line-forbidden", true, eStepLit([]eOutput{eOut(`{"a":1}`, none, false), eOut(`{"x":"?v"}`, none, true)},
+			`{"x":1,"pad":"`+strings.Repeat("p", 5000)+`"}`, `{"a":1}`)),
+		eLit("corpus-long-line-expected", true, eStepLit([]eOutput{eOut(`{"a":1}`, none, false)},
+			`{"a":1,"pad":"`+strings.Repeat("q", 20000)+`"}`)),
+		eLit("corpus-long-line-noise", false, eStepLit([]eOutput{eOut(`{"a":1}`, none, false)},
+			strings.Repeat("noise ", 1000), `{"a":1}`)),
 		eLit("corpus-one-line-two-outputs", true, eStepLit([]eOutput{eOut(`{"a":1}`, none, false), eOut(`{"a":"?x"}`, none, false)}, `{"a":1}`)),
 	}
 }
